@@ -14,6 +14,7 @@
       parser never leaves empty are not empty (what [Document::parse] guarantees of its own result). *)
 From WacV Require Import Str Token Lexer LexTables LexImpl Semver Ast Parser Grammar ParserProofs.
 From WacV Require Import Printer PrintSpec PrinterText PrinterProofs PrinterWf PrinterLex PrinterAll PrinterWitness.
+From WacV Require Import PrinterScreen PrinterScan PrinterAdj PrinterRelex PrinterFull.
 
 (* ------------------------------------------------------------------ what the parser guarantees *)
 
@@ -66,42 +67,76 @@ Print Assumptions print_tokens_derivable.
 
 (* ------------------------------------------------------------------ lexing the printed text *)
 
+(** [print_screen]: the printed text contains no forbidden code point (it consists of ASCII literals,
+    blanks, line feeds, slices of the screened source, and doc-comment lines whose characters are
+    source characters). *)
+Theorem print_screen src d r ps :
+  parse_document impl_flags impl_cfg src = POk d r -> print_pieces repaired src d = Some ps ->
+  screen impl_cfg (text_of ps) = None.
+Proof. exact (PrinterScreen.print_screen src d r ps). Qed.
+Print Assumptions print_screen.
+
 (** [render_lex_partial]. FULL statement (DESIGN): for every parsed [d] with printed pieces [ps],
     [lex impl_cfg (text_of ps) = items_of_pieces ps] -- the lexer returns exactly the tokens the
-    printer meant, with the spans and doc comments [items_of_pieces] computes.
-    PROVED: the layout half. The blanks, line feeds and doc lines the printer writes are what the
-    lexer's gap skipping passes over; the doc comments it collects are the ones attached to the next
-    token; every token is reached at the computed byte offset; fuel suffices.
-    MISSING (hypotheses [screen] and [toks_scan]): that the printed text contains no forbidden code
-    point (it consists of source slices, doc-comment lines and ASCII), and that [scan_token], run on a
-    token's text followed by the rest of the printed text, returns that token's kind and length --
-    the boundary facts "two adjacent pieces never fuse", which need the lexical class of every
-    source-copied text. Both are exercised on every run by the correspondence (the model's re-parse
-    lexes the printed text). *)
+    printer meant, with the spans and doc comments [items_of_pieces] computes: the printer always
+    separates two tokens that could fuse.
+    PROVED: that statement under one decidable side condition on the printed pieces, [kwcb ps]: an
+    identifier piece spelled like a keyword is directly followed by the colon piece. Everything else is
+    discharged: the layout half (blanks, line feeds, doc lines, doc-comment attachment, byte offsets,
+    fuel), screening ([print_screen]), and every token boundary -- every keyword / identifier /
+    package copy is followed by a blank, a line feed or a punctuation character that cannot continue
+    it ([PrinterAdj.adj_document], for ALL trees); every source-copied text, having been cut by
+    [scan_token] out of the source ([PrinterLexFacts.lex_facts]), is cut again with the same kind when
+    such a character follows ([PrinterScan.rescan_ident / rescan_string / rescan_pkg]: [%]-escapes,
+    versions with pre-release/build parts, dangling-dash identifiers, a following [: ]); the
+    printer's literals by [rescan_kw / rescan_sym].
+    MISSING: [kwcb ps = true] for every parsed document. It is vacuous unless the source has an
+    identifier TOKEN spelled like a keyword, which the lexer model returns only for a keyword directly
+    followed by a colon ([record: func()], the logos artefact recorded as C12 finding keyword_colon;
+    see [render_lex_plain_idents]). For those documents it says that the printer prints the colon
+    directly after that identifier again; proving it needs the position of the token in the grammar
+    (such a token is always followed by a Colon token, hence sits where the printer writes [id: ]),
+    not only its lexical origin. The check evaluates [kwcb] on every document of every run. *)
 Theorem render_lex_partial src d r ps :
   parse_document impl_flags impl_cfg src = POk d r -> print_pieces repaired src d = Some ps ->
-  screen impl_cfg (text_of ps) = None -> toks_scan impl_cfg ps ->
+  kwcb ps = true ->
+  lex impl_cfg (text_of ps) = items_of_pieces ps.
+Proof. exact (render_lex_full src d r ps). Qed.
+Print Assumptions render_lex_partial.
+
+(** The side condition holds when no identifier token of the source is spelled like a keyword. *)
+Theorem render_lex_plain_idents src d r ps :
+  parse_document impl_flags impl_cfg src = POk d r -> no_kw_idents src ->
+  print_pieces repaired src d = Some ps ->
   lex impl_cfg (text_of ps) = items_of_pieces ps.
 Proof.
-  intros H Hp Hsc Hts. apply lex_of_pieces; [exact Hsc| |exact Hts].
-  eapply print_gaps_ok; [exact (parse_wf_impl src d r H)|exact Hp].
+  intros H Hnk Hp. apply (render_lex_full src d r ps H Hp). exact (no_kw_idents_kwcb src d r ps H Hnk Hp).
 Qed.
-Print Assumptions render_lex_partial.
+Print Assumptions render_lex_plain_idents.
 
 (* ------------------------------------------------------------------ text level *)
 
-(** [print_parse_text] and [print_idempotent] at text level, for every parsed document whose printed
-    text lexes to the tokens the printer meant (the instance of [render_lex] for that document): the
-    printed text is accepted by [Document::parse] (model) with a tree equal to the original up to
-    [sn], and printing that tree reproduces the text byte for byte.
-    FULL statement: the same without the [lex ... = items_of_pieces ps] hypothesis.
-    MISSING: exactly what [render_lex_partial] is missing. *)
+(** [print_roundtrip_partial] = [print_parse_text] + [print_idempotent] at text level: the printed
+    text is accepted by [Document::parse] (model) with a tree equal to the original up to [sn], and
+    printing that tree reproduces the text byte for byte.
+    FULL statement: for every parsed document. PROVED: under the side condition [kwcb ps] of
+    [render_lex_partial] (in particular for every source without a keyword-spelled identifier token:
+    [print_roundtrip_plain_idents]). MISSING: exactly what [render_lex_partial] is missing. *)
 Theorem print_roundtrip_partial src d r ps :
   parse_document impl_flags impl_cfg src = POk d r -> print_pieces repaired src d = Some ps ->
-  lex impl_cfg (text_of ps) = items_of_pieces ps ->
+  kwcb ps = true ->
   RoundTrip repaired src d /\ Idempotent repaired src d.
-Proof. intros H. exact (roundtrip_of_render_lex src d ps (parse_wf_impl src d r H)). Qed.
+Proof. exact (print_roundtrip_full src d r ps). Qed.
 Print Assumptions print_roundtrip_partial.
+
+Theorem print_roundtrip_plain_idents src d r :
+  parse_document impl_flags impl_cfg src = POk d r -> no_kw_idents src ->
+  RoundTrip repaired src d /\ Idempotent repaired src d.
+Proof.
+  intros H Hnk. destruct (print_no_panic_wf src d (parse_wf_impl src d r H)) as (ps & Hp).
+  apply (print_roundtrip_full src d r ps H Hp). exact (no_kw_idents_kwcb src d r ps H Hnk Hp).
+Qed.
+Print Assumptions print_roundtrip_plain_idents.
 
 (** [nothing_dropped]: what [sn]-equality says construct by construct -- the package directive keeps
     its target and its version, the statements are as many and of the same normal form. *)
